@@ -1,11 +1,11 @@
 package main
 
 import (
-	"strings"
 	"fmt"
 	"math"
 	"net"
 	"sort"
+	"strings"
 	"sync"
 	"syscall"
 	"time"
